@@ -139,6 +139,10 @@ var checks = map[string]checkCfg{
 		Rule:        "each case is a rapid-generated history of CREATE / WRITE (UNSTABLE, DATA_SYNC, FILE_SYNC) / COMMIT / SETATTR(size) / READ on two files; within a history EVERY crash point is examined (before each backend operation and after each reply; counts in labels crash_points); non-trivial = the history has a crash point after at least one acknowledged non-empty FILE_SYNC write; distinct = FNV-64 of the case JSON",
 		Assumptions: append([]string{"crash model: file data is volatile until File.Sync, namespace operations and truncation are journaled (durable at once); bytes covered by the request in flight may hold the old or the new value"}, baseAssumptions...),
 		Phases:      []phase{rp("rapid", "^TestC22$", 4, 800, 16, 8000)}},
+	"C23": {Level: "exploration", Technique: "rapid TransferSize configurations over a real record-marking TCP connection; FSINFO-relative acceptance oracle",
+		Rule:        "each case draws TransferSize from {1,7,512,4096,65536,100000,2^20,2^22,default}, optionally a second value applied at runtime, and 3-10 count selectors over {1, pref, pref+1, max-1, max, 65537, 70000, every power of two <= max} (max itself always included); FSINFO is asked first and every WRITE/READ count is <= the advertised maximum; non-trivial = a count at or above the preferred size or equal to the maximum was exercised; distinct = FNV-64 of the case JSON",
+		Assumptions: append([]string{"real sockets on loopback"}, baseAssumptions...),
+		Phases:      []phase{rp("rapid", "^TestC23$", 6, 25, 16, 250)}},
 	"C02": {Level: "exploration", Technique: "rapid histories vs POSIX tree model + cached-vs-uncached differential",
 		Rule:        "cases are rapid-generated sequential histories of LOOKUP/CREATE/MKDIR/SYMLINK/REMOVE/RMDIR/RENAME/READDIR(PLUS)/GETATTR/READLINK over names {a,b,c} to depth 3, addressed through every handle ever issued (stale ones included); each history runs under the all-off baseline and k cached configurations (quick 3, thorough 6 of 15); non-trivial = a read-type request on a name or directory affected by an earlier successful mutation, executed under a configuration with at least one cache on; distinct = FNV-64 of the case JSON",
 		Assumptions: append([]string{"documented latitude L1-L7 of DESIGN.md §5 C02 (REMOVE of empty dir, UNCHECKED/EXCLUSIVE on existing objects, error code identity not compared against the model, path-bound handles)"}, baseAssumptions...),
